@@ -27,11 +27,11 @@ func init() {
 
 // ---- scripted connection ------------------------------------------------------------------
 
-type timeoutErr struct{}
+type h1TimeoutErr struct{}
 
-func (timeoutErr) Error() string   { return "i/o timeout" }
-func (timeoutErr) Timeout() bool   { return true }
-func (timeoutErr) Temporary() bool { return true }
+func (h1TimeoutErr) Error() string   { return "i/o timeout" }
+func (h1TimeoutErr) Timeout() bool   { return true }
+func (h1TimeoutErr) Temporary() bool { return true }
 
 // scriptConn delivers the given fragments one per Read call, then EOF or a read timeout.
 type scriptConn struct {
@@ -51,7 +51,7 @@ func (c *scriptConn) Read(p []byte) (int, error) {
 	}
 	if len(c.frags) == 0 {
 		if c.stall {
-			return 0, &net.OpError{Op: "read", Net: "tcp", Err: timeoutErr{}}
+			return 0, &net.OpError{Op: "read", Net: "tcp", Err: h1TimeoutErr{}}
 		}
 		return 0, io.EOF
 	}
